@@ -7,7 +7,8 @@
 From Coq Require Import Reals List Arith Bool Lia QArith Qcanon.
 From VZ Require Import Model.K02_Windows Model.K03_Cooc Model.K03_CoocSpec Model.K03_Exec
      Proofs.K03_BigSum Proofs.K02_Windows_proofs Proofs.K02_Qc_proofs Proofs.K03_Cooc_proofs
-     Proofs.K03_Drivers_proofs Proofs.K03_Blocks_proofs Proofs.K03_Multi_proofs Proofs.K03_Qc_proofs Proofs.K02_Time_proofs.
+     Proofs.K03_Drivers_proofs Proofs.K03_Blocks_proofs Proofs.K03_Multi_proofs Proofs.K03_Qc_proofs Proofs.K02_Time_proofs
+     Proofs.K03_Saturate_proofs.
 Import ListNotations.
 Open Scope nat_scope.
 
@@ -191,6 +192,49 @@ Theorem C03_matrix_of : forall (evs : list (event QcK)) r c, matrix_get (matrix_
 Proof. exact matrix_of_sumby. Qed.
 Print Assumptions C03_matrix_of.
 
+(* ---------------- radii larger than the sequence ---------------- *)
+
+(* once the radius reaches the length of the sequence the window is the whole side: all such radii (len, len+1,
+   32768, 2^31-1, ...) give the same window; same for the windows of multisets *)
+Theorem C03_window_radius_saturates : forall A (s : list A) R R' p rev,
+  length s <= R -> length s <= R' -> p < length s ->
+  window_at_index s R p rev = window_at_index s R' p rev.
+Proof. exact window_radius_saturates. Qed.
+Print Assumptions C03_window_radius_saturates.
+
+Theorem C03_multi_window_radius_saturates : forall A (doc : list A) R R' m rev,
+  length doc <= R -> length doc <= R' -> m < length doc ->
+  multi_window doc R m rev = multi_window doc R' m rev.
+Proof. exact multi_window_radius_saturates. Qed.
+Print Assumptions C03_multi_window_radius_saturates.
+
+(* hence the whole event list (and with it the matrix) is unchanged when every per-row radius r is replaced by
+   min L r, L any bound on the sequence lengths: what the drivers do for radii far beyond the int16/int32 range is
+   what they do at radius L *)
+Theorem C03_token_radius_clamp : forall (K : carrier) (blocks : list (block K)) nw n docs L,
+  Forall (fun s => length s <= L) docs ->
+  token_events (map (clamp_block L) blocks) nw n docs = token_events blocks nw n docs.
+Proof. exact token_events_radius_clamp. Qed.
+Print Assumptions C03_token_radius_clamp.
+
+Theorem C03_timed_radius_clamp : forall (K : carrier) Tm (absdiff : Tm -> Tm -> Tm) t0 (blocks : list (tblock K Tm)) nw n docs L,
+  Forall (fun s => length s <= L) docs ->
+  timed_events absdiff t0 (map (clamp_tblock L) blocks) nw n docs = timed_events absdiff t0 blocks nw n docs.
+Proof. exact timed_events_radius_clamp. Qed.
+Print Assumptions C03_timed_radius_clamp.
+
+Theorem C03_ngram_radius_clamp : forall (K : carrier) (blocks : list (block K)) nw n dict size docs L,
+  Forall (fun s => length s <= L) docs ->
+  ngram_events (map (clamp_block L) blocks) nw n dict size docs = ngram_events blocks nw n dict size docs.
+Proof. exact ngram_events_radius_clamp. Qed.
+Print Assumptions C03_ngram_radius_clamp.
+
+Theorem C03_multiset_radius_clamp : forall (K : carrier) (blocks : list (block K)) nw n docs L,
+  Forall (fun doc => length doc <= L) docs ->
+  multi_events (map (clamp_block L) blocks) nw n docs = multi_events blocks nw n docs.
+Proof. exact multi_events_radius_clamp. Qed.
+Print Assumptions C03_multiset_radius_clamp.
+
 (* ---------------- non-vacuity ---------------- *)
 
 Definition ex_before := mkblock true [2; 2; 2] (kf_geometric (qc 1 2)) None false 0 (qc 1 1).
@@ -228,3 +272,12 @@ Example C03_multiset_example :
   show (sumby (multi_events [ex_after] false 3 [[[0; 1]; [2]; [1; 0]]]) 0 (1 + 0 * 3)) = (9%Z, 4%Z) /\
   show (multi_spec [ex_after] false [[[0; 1]; [2]; [1; 0]]] 0 1 0) = (9%Z, 4%Z).
 Proof. split; vm_compute; reflexivity. Qed.
+
+(* radius 40000 (built inside vm_compute) on a 4-token sequence = radius 4 = radius 5 *)
+Example C03_radius_example :
+  let big := mkblock false (repeat (Z.to_nat 40000) 3) (kf_geometric (qc 1 2)) None false 0 (qc 1 1) in
+  let cap := mkblock false [4; 4; 4] (kf_geometric (qc 1 2)) None false 0 (qc 1 1) in
+  Forall (fun s : list nat => length s <= 4) ex_docs /\
+  show_events (token_events [big] false 3 ex_docs) = show_events (token_events [cap] false 3 ex_docs) /\
+  window_at_index [10; 11; 12; 13; 14] (Z.to_nat 32768) 1 false = [12; 13; 14].
+Proof. repeat split; try (vm_compute; reflexivity). repeat constructor. Qed.
